@@ -1,7 +1,8 @@
 PROP = dict(
     module="M3d.Props.C18",
     corr=dict(quick=400, thorough=1200),
-    gen=[],
+    gen=["Kernels"],
+    tie_modules=["M3d.Lemmas.KernelsTieParam"],
     corr_theorems=(
         "grow: the charts of M3d.Param.planeGraphs (the state machine charts_partition / boundary_refcount_invariant / "
         "growth_keeps_disc_partial / growth_keeps_boundary_simple are about) must equal the real nextMeshPlaneGraphs' charts; "
@@ -20,6 +21,9 @@ PROP = dict(
         "distinct = distinct operation lines"
     ),
     trusted=[
+        "regenerated, not hand-written: lean/M3d/Gen/Kernels.lean (Go->Lean translator harness/hlib/go2lean, run on the current "
+        "source on every check); M3d.KernelsTie.Param.* re-prove against it that model2d.Triangle.Barycentric (with the inverse "
+        "matrix NewTriangle stores) and Triangle.AtBarycentric (2-D, 3-D) are bary2 / atBary2 / atBary3 of the MapFn theorems",
         "modelled, not verified: Go maps/pointer sets as lists over vertex ids (ids = distinct coordinates); the splay-tree "
         "queue as a list with argmax; growth fuel (|m|+1)^2 stands for 'until the queue is empty'",
         "Tutte's theorem (convex boundary + positive weights => no flipped/overlapping triangle) is NOT proved: the proved "
